@@ -199,6 +199,7 @@ structure PState where
   assocPeer : List (String × Nat) := []               -- node id ↦ the peer it (last) associated from
   tookOver : List Nat := []                           -- sessions that have been taken over by another node id at some point
   repOf : List ((Nat × Nat) × Nat) := []              -- (peer, wire seq) of an outstanding report ↦ UP SEID of the reporting session
+  umeth : List ((Nat × Nat) × (Bool × Bool × Bool)) := []   -- (UP SEID, URR id) ↦ (DURAT, VOLUM, MNOP) as the accepted Create / Update URR IEs say (C10)
 deriving Inhabited
 
 def eventKind (toks : List String) : String := lookD (kvs toks) "kind" (toks.headD "")
@@ -351,6 +352,21 @@ def check (ps : PState) (evLine : String) (obs : List String) (fault : Option St
             fs := fs ++ [s!"C08 response {s.kind} went to p{s.peer} seq {lookD s.f "seq" ""} for a request from p{peer} seq {seq}"]
           if lookD s.f "ts" "same" != "same" then fs := fs ++ ["C08 recovery time stamp changed during the lifetime of the process"]
           if lookD s.f "node" "1" == "bad" then fs := fs ++ ["C08 response carries a wrong node id"]
+    -- C08: the Created PDR IEs of an accepted Session Establishment Response name exactly the PDRs of the request that carry a
+    -- UE IP address, each with that address, whatever the order of the children inside the Create PDR IEs
+    if typ == "recv" && kind == "est" && !isDup then
+      let toks := listOf (lookD m "pdr" "_")
+      let parts := toks.map fun t => splitOn1 t '/'
+      if parts.all fun f => (parseId (f.headD "-")).isSome then
+        let want := parts.filterMap fun f =>
+          match f with
+          | i :: _ :: ip :: _ => if ip == "" then none else some s!"{(parseId i).getD 0}/{ip}"
+          | _ => none
+        for s in sends do
+          if s.kind == "estrsp" && lookD s.f "cause" "" == "1" then
+            let got := listOf (lookD s.f "created" "_")
+            if got != want then
+              fs := fs ++ [s!"C08 the Session Establishment Response's Created PDR IEs are {reprStr got}; the PDRs the request created with a UE IP address are {reprStr want}"]
     -- C08: a request answered with an error cause, or not at all, leaves no trace
     if typ == "recv" && kind ∈ ["est", "mod", "del"] && !isDup then
       let accepted := sends.any fun s => s.kind != "srreq" && lookD s.f "cause" "" == "1"
@@ -584,8 +600,10 @@ def check (ps : PState) (evLine : String) (obs : List String) (fault : Option St
         for s in sends do
           if s.kind ∈ ["modrsp", "delrsp", "srreq"] then
             for u in parseUsars (lookD s.f "usar" "_") do
+              -- which measurement IEs the report must carry: by the URR's method and information as the Create URR and the
+              -- Update URRs so far say (an Update URR changes what it carries and nothing else) — not by the implementation's table
               let info := if touched.contains u.urr then none else
-                (ds.urrs.find? (·.id == u.urr)).map fun i => (i.durat, i.volum, i.mnop)
+                (ps.umeth.find? (·.1 == (seid, u.urr))).map (·.2)
               if !(srcs.any fun r => usarCarries u r info) then
                 fs := fs ++ [s!"C10 usage report of URR {u.urr} in the {s.kind} of session {hexN seid} (trigger {u.trig}, times {u.times}, volume {u.vol}, duration {u.dur}) " ++
                              s!"is not one of the reports the data plane produced for it in this event, carried as measured: {reprStr (srcs.filter (·.urr == u.urr))}"]
@@ -623,6 +641,12 @@ def check (ps : PState) (evLine : String) (obs : List String) (fault : Option St
         if srt expected != srt actual then
           fs := fs ++ [s!"C05 re-association of node {n} removed sessions {reprStr (srt (actual.map id))}; the sessions established under (or taken over by) that node id are {reprStr (srt expected)}" ++
                        (if ps.hadTakeover then " sig=takeoverNode" else "")]
+        -- C04: a SEID whose session was swept away by the re-association of its node resolves to nothing from then on
+        -- (histories with a takeover are left to C05: the takeover finding moves sessions between node objects)
+        if !ps.hadTakeover then
+          for up in expected do
+            if !actual.contains up then
+              fs := fs ++ [s!"C04 SEID {hexN up} still resolves to a session after the re-association of node {n}, which ends every session of that node: requests for it are no longer answered 'session context not found'"]
     -- sessions that are gone are nobody's
     own := own.filter fun e => (d.live e.1).isSome
     return (own, fs)
@@ -662,6 +686,39 @@ def check (ps : PState) (evLine : String) (obs : List String) (fault : Option St
                   fs := fs ++ [s!"C13 the downlink-data notification of session {hexN seid} (node {n}) was raised towards p{s.peer}; the SMF that owns the session is at p{w}{sig}"]
     return fs
   let tookOver' := (if isTakeover then seid :: ps.tookOver else ps.tookOver).filter fun u => (d.live u).isSome
+  -- C10, specification side: method / information of each URR, from the requests
+  let umeth' : List ((Nat × Nat) × (Bool × Bool × Bool)) := Id.run do
+    let mut t := ps.umeth
+    if typ == "recv" && !isDup then
+      if kind == "est" then
+        for s in sends do
+          if s.kind == "estrsp" && lookD s.f "cause" "" == "1" then
+            let up := hexD ((splitOn1 (lookD s.f "fseid" "-") '/').headD "0")
+            t := t.filter (·.1.1 != up)
+            for ie in parseUrrRules (lookD m "urr" "_") do
+              match ie.id with
+              | some i => t := ((up, i), ((ie.meth.getD (false, false)).1, (ie.meth.getD (false, false)).2, ie.mnop.getD false)) :: t.filter (·.1 != (up, i))
+              | none => pure ()
+      if kind == "mod" && (prev.live seid).isSome then
+        for ie in parseUrrRules (lookD m "curr" "_") do
+          match ie.id with
+          | some i => t := ((seid, i), ((ie.meth.getD (false, false)).1, (ie.meth.getD (false, false)).2, ie.mnop.getD false)) :: t.filter (·.1 != (seid, i))
+          | none => pure ()
+        for ie in parseUrrRules (lookD m "uurr" "_") do
+          match ie.id with
+          | some i =>
+            match t.find? (·.1 == (seid, i)) with
+            | some (_, (dd, vv, mm)) =>
+              let (dd, vv) := match ie.meth with
+                | some (a, b) => (a, b)
+                | none => (dd, vv)
+              let mm := ie.mnop.getD mm
+              t := ((seid, i), (dd, vv, mm)) :: t.filter (·.1 != (seid, i))
+            | none => pure ()
+          | none => pure ()
+    -- sessions that are gone
+    t := t.filter fun e => (d.live e.1.1).isSome
+    return t
   let hadTakeover' := ps.hadTakeover || (typ == "recv" && kind == "mod" && lookD m "node" "-" != "-" && !isDup && (prev.live seid).isSome)
   let fails := fails ++ c11fails ++ c12fails ++ c10fails ++ c10dest ++ c05fails
   -- bookkeeping for the next event
@@ -682,6 +739,6 @@ def check (ps : PState) (evLine : String) (obs : List String) (fault : Option St
   let outst0 := if typ == "recv" && (kind == "srrsp" || kind == "orsp") then ps.outst.filter (·.1 != (peer, seq)) else ps.outst
   let outst1 := if typ == "tmo" && lookD m "k" "" == "tx" && !(d.tx.any fun t => t.1 == s!"p{peer}-{seq}")
     then outst0.filter (·.1 != (peer, seq)) else outst0
-  ({ ps with prev := d, cache := cache', outst := outst1 ++ newReqs, nextSeqn := seq1, c12 := c12', own := own', hadTakeover := hadTakeover', taken := taken', assocPeer := assocPeer', repOf := repOf1, tookOver := tookOver' }, fails)
+  ({ ps with prev := d, cache := cache', outst := outst1 ++ newReqs, nextSeqn := seq1, c12 := c12', own := own', hadTakeover := hadTakeover', taken := taken', assocPeer := assocPeer', repOf := repOf1, tookOver := tookOver', umeth := umeth' }, fails)
 
 end UpfVerif.Driver.CtlProps
